@@ -150,7 +150,9 @@ def mux_text(what):
             'the real code, with a tap at every boundary, through MuxTrace.tla; only clauses belonging to '
             'this property count as its violations. The executions vary more than the inputs: interleavings '
             'and key-slot histories, one python operator object / pipeline list used at several places, a '
-            'warm-up subscription of the same piped observable disposed mid-stream, re-entrant delivery (the '
+            'warm-up subscription of the same piped observable disposed mid-stream or an earlier application of '
+            'the same operator objects to another source, other with_memory_store pipelines alive on the same '
+            'feed, re-entrant delivery (the '
             'subscriber pushes the next item from inside on_next), the multi-source form of with_store, '
             'sources that deliver inside subscribe(); every case is also run with taps at the two ends only '
             'and must give the same outputs.')
@@ -179,7 +181,8 @@ MUX = {
            'to a timeout), integer and datetime renderings, interleaved keys.',
     'C08': 'C08: every branch head sees the source events; the output is Join(mode, branch tail events in '
            'emission order) with a join state per key lifetime: branch catalogue x 3 joins, 2..4 branches, '
-           'nested tee, under group_by/roll/split.',
+           'nested tee, under group_by/roll/split, one tee_map object applied several times; in plain mode '
+           'every branch, observed at its tail, delivers and completes as the same pipeline alone (PlainSem.tla).',
     'C09': 'C09: scan and every operator defined through it equal the left fold of the lifetime\'s items '
            '(streaming / reduce / terminator, seeds as values and factories, mutating accumulators), all '
            'interleavings of short keys, inside windows and groups.',
@@ -187,10 +190,12 @@ MUX = {
            'their list definitions on every sequence over {0,1,2,None} up to length 4 (5) and all parameters.',
     'C11': 'C11: every contract compares outputs together with the source event that caused them (-timing, '
            '-child-item-step, -child-close-step clauses): random nested pipelines plus a dedicated promptness '
-           'set.',
+           'set; for the framing operators the chunk in which every line / frame is emitted is compared with '
+           'LineFraming.tla / LengthPrefix.tla (framing-emission-time).',
     'C13': 'C13: failing user functions (every subset of failing positions) x handlers none/ignore/error.map/'
-           'router x stateful operators downstream; dead-letter order and completion; unhandled errors must '
-           'end the stream with that exception where it is demultiplexed.',
+           'router x stateful operators downstream, handlers inside nested keys; dead-letter order and '
+           'completion; unhandled errors (also in front of key-creating operators) must end the stream with '
+           'that exception where it is demultiplexed.',
 }
 for _i, _t in MUX.items():
     CHECKS[_i] = dict(text=mux_text(_t), note=MUX_NOTE, design='8 (%s), Appendix A/B' % _i, engine='mux-contracts')
